@@ -181,6 +181,87 @@ theorem set_refused {g : Graph V} (s : St V) {i : Nat} (h : g.n ≤ i ∨ g.kind
       · next hk => exact absurd hk h
       · rfl
 
+/-- From scratch every variable has a value as soon as every independent variable has one. -/
+theorem spec_total {g : Graph V} (wf : WF g) (ind : Cache V)
+    (hall : ∀ i < g.n, g.kind i ≠ .linked → ind i ≠ none) : ∀ d < g.n, spec g ind d ≠ none := by
+  have key : ∀ (l1 l2 : List Nat), g.order = l1 ++ l2 → ∀ d ∈ l1, spec g ind d ≠ none := by
+    intro l1
+    induction l1 using List.reverseRecOn with
+    | nil => intro _ _ d hd; simp at hd
+    | append_singleton l a ih =>
+      intro l2 hs d hd
+      rw [List.append_assoc, List.singleton_append] at hs
+      rcases List.mem_append.1 hd with hd | hd
+      · exact ih (a :: l2) hs d hd
+      · simp only [List.mem_singleton] at hd
+        subst hd
+        have hlt : d < g.n := (wf.order_mem d).1 (by rw [hs]; simp)
+        cases hk : g.kind d with
+        | indep b => rw [spec_indep wf ind hlt hk]; exact hall d hlt (by rw [hk]; simp)
+        | linked =>
+          rw [spec_linked wf ind hlt hk]
+          have : ∀ p ∈ g.parents d, spec g ind p ≠ none :=
+            fun p hp => ih (d :: l2) hs p (wf.parents_before l d l2 hs hk p hp)
+          obtain ⟨vs, hvs⟩ := mapM_some_iff.2 this
+          rw [hvs]; simp
+  intro d hd
+  exact key g.order [] (by simp) d ((wf.order_mem d).2 hd)
+
+/-- When every independent variable is set, every read succeeds (and returns the from-scratch value). -/
+theorem get_total {g : Graph V} (wf : WF g) {s : St V} (h : Inv g s)
+    (hall : ∀ i < g.n, g.kind i ≠ .linked → s.vals i ≠ none) {i : Nat} (hi : i < g.n) :
+    ∃ v, (State.get g s i).2 = .ok v ∧ spec g (absS g s) i = some v := by
+  have hspec := spec_total wf (absS g s) (by
+    intro j hj hk
+    unfold absS absC
+    cases hkj : g.kind j with
+    | linked => exact absurd hkj hk
+    | indep b => simpa using hall j hj hk) i hi
+  have hr := (get_refines wf h hi).1
+  cases hres : (State.get g s i).2 with
+  | ok v => rw [hres] at hr; exact ⟨v, rfl, hr⟩
+  | error e => rw [hres] at hr; exact absurd hr.2 hspec
+
+private theorem get_cached {g : Graph V} (s : St V) {i : Nat} (hi : i < g.n) {v : V} (h : s.vals i = some v) :
+    State.get g s i = (s, .ok v) := by
+  unfold State.get
+  have hni : ¬ g.n ≤ i := by omega
+  simp [hni, h]
+
+/-- A read is idempotent: reading again returns the same result and leaves the state as the first read left it. -/
+theorem get_idempotent {g : Graph V} {s : St V} {i : Nat} (hi : i < g.n) {v : V}
+    (hv : (State.get g s i).2 = .ok v) : State.get g (State.get g s i).1 i = ((State.get g s i).1, .ok v) := by
+  have hcached : (State.get g s i).1.vals i = some v := by
+    unfold State.get at hv ⊢
+    have hni : ¬ g.n ≤ i := by omega
+    simp only [hni, if_false] at hv ⊢
+    cases hci : s.vals i with
+    | some w =>
+      simp only [hci] at hv ⊢
+      cases hv
+      rfl
+    | none =>
+      simp only [hci] at hv ⊢
+      cases hw : walk g (g.anc i) s.vals with
+      | mk c e =>
+        simp only [hw] at hv ⊢
+        cases e with
+        | some e => simp at hv
+        | none =>
+          simp only at hv ⊢
+          cases hc : compute g c i with
+          | ok w => simp only [hc] at hv ⊢; cases hv; simp [upd]
+          | error e => simp [hc] at hv
+  exact get_cached _ hi hcached
+
+/-- Operations on one state of the store (a clone, say) leave every other state untouched. -/
+theorem step_other_states_untouched {g : Graph V} (mix : M → V → V → V) (σ : Store V) (op : Op V M) (k : Nat)
+    (hk : match op with
+      | .get sid _ | .isSet sid _ | .set sid _ _ | .put sid _ _ _ | .revert sid _ | .precompute sid
+      | .setMode sid _ | .clear sid => k ≠ sid
+      | .clone _ dst _ _ => k ≠ dst) : (step g mix σ op).1 k = σ k := by
+  cases op <;> simp only [step] <;> (split <;> first | rfl | (simp only [Store.put]; simp [hk]))
+
 /-! ### bridge to C15: the tables of an accepted graph are well-formed -/
 
 private theorem pairwise_idxOf {l : List Nat} (hnd : l.Nodup) :
